@@ -119,8 +119,13 @@ def r81(db, ctx):
         probs.append(f'field factor = {X.show(ops.get("factor"))} but cells are divided by {X.show(b["$factor"])}')
     if ops.get('offsets') != bo['$offs']:
         probs.append('field offsets is not the vector subtracted from the cells')
-    so = m(('call~', 'Iterator::sum', (('call~', 'slice::iter', ('$v',)),)), ops.get('offset'))
-    if not (so and so['$v'] == bo['$offs']):
+    # offset = Σ offsets over the whole vector, in any spelling (sum / fold / map chain)
+    from lm import reduce as RD
+    RC = RD.RCanon(db, f, R)
+    red = RD.of_expr(RC, ops.get('offset')) if ops.get('offset') is not None else None
+    # the summed sequence is the offsets vector itself, element by element (the vector may be a collected pipeline: compare element-wise)
+    el = RC.elem_of(('call', 'core::slice::iter', (bo['$offs'],)), red['L']) if red is not None else None
+    if not (red is not None and el is not None and red['op'] == 'add' and norm(red['init']) in (('k', 0), ('k', 0.0)) and red['term'] == el[0] and red['extents'] == el[1]):
         probs.append(f'field offset = {X.show(ops.get("offset"), 100)} is not the sum of the same offsets vector')
     if ops.get('data') != bt['$data']:
         probs.append('field data is not the matrix that was filled')
